@@ -476,6 +476,11 @@ def shrink(s):
         if len(b) > 0:
             for k in range(len(b)):
                 yield b[:k] + b[k + 1:]
+    for i, x in enumerate(filters):
+        for c in shorter(x):
+            if all(t[1] != x for t in tests):          # a filter that selects nothing may become any other text that selects nothing
+                if all(t[1] != c for t in tests):
+                    yield ser(dur, tests, filters[:i] + [c] + filters[i + 1:])
     for i, t in enumerate(tests):
         g, n, f, l, ign, body = t
         for fld in range(3):
